@@ -1399,6 +1399,12 @@ def p_zip(ev, st, ctx):
     b = ctx.args[1]
     if isinstance(b, Ref) and b.win is not None:
         b = PrimV("sliceiter", (b, 0, b.mut))
+    elif isinstance(b, Ref):
+        tgt = ev.load(st, b)
+        if isinstance(tgt, ArrV):  # &[T; N] / &mut [T; N]
+            b = PrimV("sliceiter", (Ref(b.obj, b.path, (0, tgt.n), b.mut), 0, b.mut))
+    elif isinstance(b, ArrV):  # an array by value
+        b = PrimV("arrayiter", (b, 0))
     return PrimV("zip", (ctx.args[0], b))
 
 
